@@ -176,6 +176,8 @@ def E1() -> bool:
 
 # -- E2: concurrent FileDestination calls -----------------------------------------
 class RecFile(object):
+    sched = None  # set by the harness: each write() is atomic, but a thread switch may follow it
+
     def __init__(self):
         self.events = []
 
@@ -184,6 +186,8 @@ class RecFile(object):
             raise TypeError("binary")
         if data:
             self.events.append(bytes(data))
+            if self.sched is not None:
+                self.sched.yield_point("after file.write")
 
     def writelines(self, lines):
         # io.IOBase.writelines: one write() call per item, nothing atomic about it
@@ -200,6 +204,7 @@ def body_E2(ctx):
     f = RecFile()
     dest = FileDestination(file=f)
     sched = Sched(ctx, watch={OUT_FILE: None}, preemptions=sh.get("P", 3))
+    f.sched = sched
     msgs = [[{"task_uuid": "u%d" % t, "task_level": [i + 1], "timestamp": 1.0, "message_type": "t:m", "payload": "x" * (t + 1)} for i in range(sh.get("msgs", 2))] for t in range(nthreads)]
 
     def mk(t):
